@@ -211,12 +211,31 @@ func c20Run(c *Ctx) {
 			return
 		}
 	}
+	var hiddenCmds []*flags.Command
 	for _, n := range cs.Hidden {
 		hc, err := parent.AddCommand(n, "desc", "", &emptyCmd{})
 		if err != nil {
 			c.Unspec("setup failed")
 			return
 		}
+		hiddenCmds = append(hiddenCmds, hc)
+	}
+	if c.K%4 == 1 {
+		// a program may decide visibility late: an earlier diagnosis and help must not freeze the command list
+		safely(func() {
+			p.ParseArgs(append(append([]string{}, prefix...), "zz-earlier-word"))
+			var sink strings.Builder
+			p.WriteHelp(&sink)
+		})
+		for cm := p.Command; cm != nil; cm = cm.Active {
+			defer func(cm *flags.Command) {}(cm)
+		}
+		p.Active = nil
+		if cs.Depth == 1 {
+			parent.Active = nil
+		}
+	}
+	for _, hc := range hiddenCmds {
 		hc.Hidden = true
 	}
 	isName := false
